@@ -39,24 +39,28 @@ Definition get_data_rate_index (t : tables) (uplink : bool) (q : data_rate) : ou
   | [] => Err
   end.
 
-(* func (b *band) GetMaxPayloadSizeForDataRateIndex  band.go:290-312 *)
+(* func (b *band) GetMaxPayloadSizeForDataRateIndex  band.go:290-312.
+   m[key] with fallback to m["latest"], at both map levels: *)
+Definition sfind_or_latest {A} (k : string) (m : smap A) : option A :=
+  match sfind k m with
+  | Some v => Some v
+  | None => sfind latest m
+  end.
+
+(* the DR -> size map the (version, revision) pair resolves to *)
+Definition select_size_table (t : tables) (ver rev : string) : option size_table :=
+  match sfind_or_latest ver (t_maxpl t) with
+  | None => None
+  | Some revmap => sfind_or_latest rev revmap
+  end.
+
 Definition get_max_payload (t : tables) (ver rev : string) (dr : Z) : outcome (Z * Z) :=
-  match (match sfind ver (t_maxpl t) with
-         | Some m => Some m
-         | None => sfind latest (t_maxpl t)
-         end) with
-  | None => Err
-  | Some revmap =>
-    match (match sfind rev revmap with
-           | Some m => Some m
-           | None => sfind latest revmap
-           end) with
-    | None => Err
-    | Some drmap =>
-      match zfind dr drmap with
-      | Some ps => Ok ps
-      | None => Err
-      end
+  match select_size_table t ver rev with
+  | None => Err            (* "no max payload-size for ... or latest" *)
+  | Some drmap =>
+    match zfind dr drmap with
+    | Some ps => Ok ps
+    | None => Err          (* "invalid data-rate" *)
     end
   end.
 
@@ -70,17 +74,17 @@ Definition generic_rx1_dr (t : tables) (dr off : Z) : outcome Z :=
     else zindex row off
   end.
 
-(* func (b *band) GetTXPowerOffset  band.go:327-332.  Modelled for
-   txPower >= 0 only (the negative side is owned by property C15). *)
+(* func (b *band) GetTXPowerOffset  band.go:327-332
+   (`if txPower < 0 || txPower > len(b.txPowerOffsets)-1 { error }`, the lower
+   bound was added by the C15-1 fix; this check never probes negative indices) *)
 Definition get_tx_power_offset (t : tables) (i : Z) : outcome Z :=
-  if i >? zlen (t_txpow t) - 1 then Err else zindex (t_txpow t) i.
+  if (i <? 0) || (i >? zlen (t_txpow t) - 1) then Err else zindex (t_txpow t) i.
 
-(* func (b *band) GetUplinkChannel / GetDownlinkChannel  band.go:352-358, 404-409
-   (for channel >= 0, see above) *)
+(* func (b *band) GetUplinkChannel / GetDownlinkChannel  band.go:352-358, 395-400 *)
 Definition get_uplink_channel (t : tables) (i : Z) : outcome channel :=
-  if i >? zlen (t_up t) - 1 then Err else zindex (t_up t) i.
+  if (i <? 0) || (i >? zlen (t_up t) - 1) then Err else zindex (t_up t) i.
 Definition get_downlink_channel (t : tables) (i : Z) : outcome channel :=
-  if i >? zlen (t_down t) - 1 then Err else zindex (t_down t) i.
+  if (i <? 0) || (i >? zlen (t_down t) - 1) then Err else zindex (t_down t) i.
 
 (* func (b *band) GetUplinkChannelIndex(frequency, defaultChannel)  band.go:360-368 *)
 Fixpoint uplink_channel_index_from (chs : list channel) (i : Z) (f : Z) (default : bool) : outcome Z :=
